@@ -1,3 +1,4 @@
+#include <array>
 #include "gen.hpp"
 #include <algorithm>
 #include <cstring>
@@ -270,6 +271,7 @@ Program gen_program(uint64_t seed, const GenParams &gp, const std::string &profi
             if (!f.open) break;
             if (f.vars.empty()) break;
             double x = (rng.next() >> 11) * (1.0 / 9007199254740992.0);
+            if (gp.meta_heavy && rng.chance(0.12)) x = 2.0;   // metadata-heavy programs: one op in eight is a data-mode metadata update
             Op o; o.file = fi;
             int vi = (int)rng.below(f.vars.size()); MVar &v = f.vars[vi]; o.var = vi;
             bool indep = f.mode == FM_INDEP;
@@ -341,11 +343,20 @@ Program gen_program(uint64_t seed, const GenParams &gp, const std::string &profi
                         Op re; re.kind = OP_OPEN; re.file = fi; re.name = "/sim/f" + std::to_string(fi) + ".nc"; re.a[0] = 1; emit(re);
                     } else define_phase(false);
                 }
-            } else if (gp.fill && v.isrec) { o.kind = OP_FILL_VAR_REC; o.a[0] = rng.range(0, f.numrecs + 1); if (gp.fill_rec_split && np > 1 && !gm.safe_mode && rng.chance(0.3)) o.a[1] = rng.range(1, 3); emit(o); }
+            } else if (gp.fill && v.isrec && x < 1.5) { o.kind = OP_FILL_VAR_REC; o.a[0] = rng.range(0, f.numrecs + 1); if (gp.fill_rec_split && np > 1 && !gm.safe_mode && rng.chance(0.3)) o.a[1] = rng.range(1, 3); emit(o); }
             else if (gp.meta_heavy) {
                 // data-mode metadata updates: rename to a shorter name, overwrite an attribute with a value whose padded size does not grow
                 auto shorter = [&](const std::string &nm) { size_t cut = std::max<size_t>(1, nm.size() - 1 - (nm.size() > 3 ? rng.below(2) : 0)); while (cut > 0 && ((unsigned char)nm[cut] & 0xC0) == 0x80) cut--; return cut == 0 ? nm : nm.substr(0, cut); };   // cut at a character boundary (names may consist of multi-byte characters only)
-                int w = (int)rng.below(5);
+                int w = (int)rng.below(6);
+                if (w == 5) {   // copy_att in data mode: permitted onto an existing attribute whose padded size does not grow, refused (NC_ENOTINDEFINE, no effect) otherwise
+                    o.kind = OP_COPY_ATT; o.a[0] = fi; o.var = rng.chance(0.5) ? -1 : (int)rng.below(f.vars.size()); o.a[1] = rng.chance(0.5) ? -1 : (long long)rng.below(f.vars.size()); o.a[2] = (long long)rng.below(8);
+                    if (rng.chance(0.7)) {   // prefer a pair of lists that share an attribute name (only then can the copy be accepted in data mode)
+                        std::vector<std::array<long long, 3>> cand;
+                        for (int sv = -1; sv < (int)f.vars.size(); sv++) for (int dv = -1; dv < (int)f.vars.size(); dv++) { if (sv == dv) continue; auto &sl = sv < 0 ? f.gatts : f.vars[sv].atts; auto &dl = dv < 0 ? f.gatts : f.vars[dv].atts; for (size_t ai = 0; ai < sl.size(); ai++) if (sl[ai].name != "_FillValue") for (auto &da : dl) if (da.name == sl[ai].name) cand.push_back({sv, dv, (long long)ai}); }
+                        if (!cand.empty()) { auto c3 = cand[rng.below(cand.size())]; o.var = (int)c3[0]; o.a[1] = c3[1]; o.a[2] = c3[2]; }
+                    }
+                    emit(o);
+                } else
                 if (w == 0) { o.kind = OP_RENAME_VAR; o.name2 = shorter(v.name); if (o.name2 != v.name) emit(o); }
                 else if (w == 1 && !f.dims.empty()) { o.kind = OP_RENAME_DIM; o.dim = (int)rng.below(f.dims.size()); o.name2 = shorter(f.dims[o.dim].name); if (o.name2 != f.dims[o.dim].name) emit(o); }
                 else {
@@ -358,7 +369,7 @@ Program gen_program(uint64_t seed, const GenParams &gp, const std::string &profi
                             o.kind = OP_PUT_ATT; o.var = avi; o.name = old.name;
                             long long cap = ((long long)old.v.size() * nc_type_size(old.type) + 3) / 4 * 4;
                             o.att.type = rng.chance(0.6) ? old.type : pick_type(rng, f.format); if (old.type == NC_CHAR || o.att.type == NC_CHAR) o.att.type = old.type;
-                            long long maxn = cap / nc_type_size(o.att.type); long long n = rng.chance(0.5) ? maxn : (long long)rng.range(0, maxn);
+                            long long maxn = cap / nc_type_size(o.att.type); long long n = rng.chance(0.5) ? maxn : (long long)rng.range(0, maxn); if (rng.chance(0.15)) n = maxn + 1 + (long long)rng.below(3);   // sometimes too large: must be refused
                             for (long long k2 = 0; k2 < n; k2++) o.att.v.push_back((long long)rng.range(1, 100000));
                             emit(o);
                         }
